@@ -25,6 +25,8 @@ def occurrences(e, conds=(), icpt=False, swallowed=False, agg=False,
     k = e[0]
     if k == 'an':     # spill reference: depends on the cell at the anchor
         e, k = ['r', e[1], e[2], e[3], e[4], e[3], e[4]], 'r'
+    if k == 'w':      # whole rows / columns: the part inside the window
+        e, k = ['r'] + e[1:7], 'r'
     if k in ('r', 'nm'):
         yield e, conds, icpt, swallowed, agg, weak
     elif k == 'op':
